@@ -70,6 +70,45 @@ Definition ck_step (k : nat) (s : ck) (x : nat * atok) : ck :=
        else s1.
 Definition ck_run (k : nat) (arr : list (nat * atok)) : ck := fold_left (ck_step k) arr ck_init.
 
+(* ---- termination tokens whose status is neither COMPLETED nor SKIPPED (FAILED, CANCELLED, RECOVERED -- the latter is what
+   InterWorkflowPort puts on the ports of a recovery workflow): the port's checklist is cleared, hence the port is
+   not read again.  Step level only: the network models (Net.v, NetG.v, NetK.v) and their theorems are about
+   COMPLETED / SKIPPED termination tokens ([ATerm], [ATermIn]), which keep the checklist. ---- *)
+Inductive xtok := XA (a : atok) | XClear.
+Definition ck_clear (s : ck) (i : nat) : ck :=
+  {| kchk := filter (fun x => negb (Nat.eqb (fst x) i)) (kchk s);
+     kterm := if nmem i (kterm s) then kterm s else kterm s ++ [i];
+     kpend := kpend s; kimap := kimap s; kout := kout s; kdone := false |}.
+Definition ckx_step (k : nat) (s : ck) (x : nat * xtok) : ck :=
+  match snd x with
+  | XA a => ck_step k s (fst x, a)
+  | XClear =>
+      if kdone s || negb (armed s (fst x)) then s
+      else let s1 := ck_clear s (fst x) in
+           if forallb (fun j => negb (armed s1 j)) (seq 0 k)
+           then {| kchk := kchk s1; kterm := kterm s1; kpend := kpend s1; kimap := kimap s1;
+                   kout := kout s1 ++ map (fun j => (j, ATerm)) (seq 0 k); kdone := true |}
+           else s1
+  end.
+Definition ckx_run (k : nat) (arr : list (nat * xtok)) : ck := fold_left (ckx_step k) arr ck_init.
+(* without such tokens it is ck_run *)
+Lemma ckx_run_plain k arr : ckx_run k (map (fun x => (fst x, XA (snd x))) arr) = ck_run k arr.
+Proof.
+  unfold ckx_run, ck_run. generalize ck_init. induction arr as [|[i a] arr IH]; intros s; simpl; [reflexivity|].
+  apply IH.
+Qed.
+(* after a clearing termination token the port has no checklist entry left and is not read any more *)
+Lemma ck_clear_disarms s i : armed (ck_clear s i) i = false.
+Proof.
+  unfold armed, ck_clear. simpl.
+  assert (A : nmem i (if nmem i (kterm s) then kterm s else kterm s ++ [i]) = true).
+  { destruct (nmem i (kterm s)) eqn:E; [exact E|]. unfold nmem. rewrite existsb_app. simpl. rewrite Nat.eqb_refl. apply orb_true_r. }
+  rewrite A. simpl.
+  assert (B : existsb (fun x : nat * tag => fst x =? i) (filter (fun x => negb (fst x =? i)) (kchk s)) = false).
+  { induction (kchk s) as [|[j t] l IH]; [reflexivity|]. simpl. destruct (j =? i) eqn:E; simpl; [exact IH|]. rewrite E. exact IH. }
+  rewrite B. reflexivity.
+Qed.
+
 (* ------------------------------------------------------------------ step-level facts *)
 Definition done_ok (k : nat) (s : ck) : Prop :=
   kdone s = true -> forall i, i < k -> In i (kterm s) /\ (forall t, ~ In (i, t) (kchk s)).
